@@ -691,6 +691,7 @@ class _OneofRun:
 
 
 class OneofSim(Simulator):
+    isolate_runs = True
     crash_rule = "C07.O1"
     name = "objsim-oneof"
     property_id = "C07"
@@ -1164,6 +1165,7 @@ class _ObserverRun:
 
 
 class ObserverSim(Simulator):
+    isolate_runs = True
     crash_rule = "C14.Q1"
     name = "objsim-observers"
     property_id = "C14"
